@@ -7,6 +7,7 @@ from core import proto
 from .common import case, guarded, ordinal_instance, weak_orders, rand_weak_order
 
 ID = "C17"
+COVER_FILES = ['instances/preflibinstance/categorical.py']
 RULE = ("exhaustive: every source made of 1-2 distinct weak (possibly incomplete) orders over <= 3 alternatives x "
         "every list of 1-2 positive truncators <= 3 for size_truncators and for num_indif_classes x a fixed set of "
         "relative truncator lists; the parameter-combination guards; random: weak incomplete instances (m <= 7, "
